@@ -106,6 +106,33 @@ where
         })
     }
 
+    /// Snapshot of internal counters, for external monitors.
+    #[cfg(feature = "verif")]
+    #[doc(hidden)]
+    pub fn verif_snapshot(&self) -> crate::verif::StreamSnapshot {
+        let tmp_len = self.tmp.position() as usize;
+        match &self.state {
+            None => crate::verif::StreamSnapshot {
+                phase: 2,
+                tmp_len,
+                partial_len: 0,
+                produced: 0,
+            },
+            Some(State::Header(_)) => crate::verif::StreamSnapshot {
+                phase: 0,
+                tmp_len,
+                partial_len: 0,
+                produced: 0,
+            },
+            Some(State::Data(state)) => crate::verif::StreamSnapshot {
+                phase: 1,
+                tmp_len,
+                partial_len: state.decoder.verif_partial_len(),
+                produced: state.output.len() as u64,
+            },
+        }
+    }
+
     /// Get a mutable reference to the output sink;
     pub fn get_output_mut(&mut self) -> Option<&mut W> {
         self.state.as_mut().map(|state| match state {
